@@ -25,7 +25,7 @@ use uom::si::time::second;
 pub fn def() -> PropDef {
     PropDef {
         id: "C10",
-        rule: "inputs: events of 0-40 wire banks over all (board, channel) pairs and 0-8 PWB messages over all (board, chip) with any subset of the 79 readout channels (pads, FPN, reset), arbitrary sample contents incl. ADC extremes, wire waveforms of 64..2000 samples (incl. <= delay), pad waveforms of 0..511 samples, chunk sizes 40..60000, run numbers of every calibration era and both sides of every dispatch boundary, any bank order, plus ignorable banks (BV banks, TRBA, MCVX, 16-byte suppressed packets); single injected inconsistencies: renamed wire bank, swapped payloads, duplicated wire bank (either order, one copy possibly shorter than the delay), duplicated/missing TRG, BV channel in a C bank, unknown bank name, PWB chunk under another board's name, dropped chunk, duplicated PWB message, corrupted wire/chunk/TRG payload, board not installed for the run; oracle: slot-by-slot model of both signal arrays (slot from the public map API, value (raw - baseline) * gain after the delay with the harness's own reading of the calibration files and run dispatch, every other slot empty), timestamp, exact f64 equality through the read-only hook; faults must give Err, fault-free events Ok exactly when every needed map/calibration exists; hook-free variant: a single wire pulse + pad cluster must come back from avalanches() on that wire, time bin and pad row; non-trivial = accepted events with >= 2 occupied slots, or a fault case; distinct by (run era, slots, fault) hash",
+        rule: "inputs: events of 0-40 wire banks over all (board, channel) pairs and 0-8 PWB messages over all (board, chip) with any subset of the 79 readout channels (pads, FPN, reset), arbitrary sample contents incl. ADC extremes, wire waveforms of 64..2000 samples (incl. <= delay), pad waveforms of 0..511 samples, chunk sizes 40..60000, run numbers of every calibration era and both sides of every dispatch boundary, any bank order, plus ignorable banks (BV banks, TRBA, MCVX, 16-byte suppressed packets); single injected inconsistencies: renamed wire bank, swapped payloads, duplicated wire bank (either order, one copy possibly shorter than the delay), duplicated/missing TRG, BV channel in a C bank, unknown bank name, PWB chunk under another board's name, dropped chunk, duplicated PWB message, corrupted wire/chunk/TRG payload, an extra wire bank whose payload the reference validator of C02 rejects (a 16-byte suppressed packet with one byte changed, 0-40 arbitrary bytes, a data packet cut short), board not installed for the run; oracle: slot-by-slot model of both signal arrays (slot from the public map API, value (raw - baseline) * gain after the delay with the harness's own reading of the calibration files and run dispatch, every other slot empty), timestamp, exact f64 equality through the read-only hook; faults must give Err, fault-free events Ok exactly when every needed map/calibration exists; hook-free variant: a single wire pulse + pad cluster must come back from avalanches() on that wire, time bin and pad row; non-trivial = accepted events with >= 2 occupied slots, or a fault case; distinct by (run era, slots, fault) hash",
         assumptions: &[
             "the signal arrays are read through alpha_g_physics::verif_hooks (feature verif-hooks); the hook-free single-pulse variant cross-checks slot, delay and baseline sign without it",
             "two header-only (16-byte) packets under one name are outside the duplicate rule (they carry no data); the check asserts nothing about that corner",
@@ -71,6 +71,11 @@ pub enum Fault {
     CorruptChunk { msg: u16, chunk: u16 },
     CorruptTrg,
     NotInstalled { msg: u16, sel: u16 },
+    /// an extra wire bank (for a wire without data) whose payload is not a
+    /// well-formed ADC packet: kind 0 = a valid 16-byte suppressed packet with
+    /// one byte set to `val`, 1 = `bytes` as they are, 2 = a valid data packet
+    /// cut to `pos` bytes
+    MalformedWire { board: u8, channel: u8, kind: u8, pos: u8, val: u8, bytes: Vec<u8> },
 }
 #[derive(Clone, Debug, Serialize, Deserialize)]
 pub enum Ignored {
@@ -243,6 +248,31 @@ fn build_case(c: &C10Case) -> Built {
                     let mut p = adc_packet(b, ch, &vec![3000i16; 80]);
                     p[5] = *bv % 16;
                     extra.push((wire_bank_name(b, ch), p));
+                    true
+                }
+            }
+            Fault::MalformedWire { board, channel, kind, pos, val, bytes } => {
+                let (b, ch) = ((*board % 8) as usize, *channel % 32);
+                let payload = match kind % 3 {
+                    0 => {
+                        let mut p = adc_packet(b, ch, &vec![3000i16; 64]);
+                        p.truncate(12);
+                        p.extend([0x20u8, 0x00, 0x0B, 0xB8]);
+                        p[*pos as usize % 16] = *val;
+                        p
+                    }
+                    1 => bytes.clone(),
+                    _ => {
+                        let mut p = adc_packet(b, ch, &vec![3000i16; 80]);
+                        p.truncate(*pos as usize % p.len());
+                        p
+                    }
+                };
+                // only payloads the reference validator of C02 rejects, on a wire without data
+                if wires.iter().any(|w| w.0 == b && w.1 == ch) || oracles::adc::ref_adc(&payload).is_ok() {
+                    false
+                } else {
+                    extra.push((wire_bank_name(b, ch), payload));
                     true
                 }
             }
@@ -460,6 +490,7 @@ fn fault() -> impl Strategy<Value = Fault> {
         (any::<u16>(), any::<u16>()).prop_map(|(msg, chunk)| Fault::CorruptChunk { msg, chunk }),
         Just(Fault::CorruptTrg),
         (any::<u16>(), any::<u16>()).prop_map(|(msg, sel)| Fault::NotInstalled { msg, sel }),
+        ((0u8..8, 0u8..32), 0u8..3, any::<u8>(), prop_oneof![any::<u8>(), Just(0u8), Just(0xFFu8)], vec(any::<u8>(), 0..=40)).prop_map(|((board, channel), kind, pos, val, bytes)| Fault::MalformedWire { board, channel, kind, pos, val, bytes }),
     ]
 }
 
